@@ -168,10 +168,11 @@ CHECKS["C14"] = dict(
 CHECKS["C19"] = dict(
     jobs=[dict(pkg="pkg/stats", entry="HC19Recount", params=dict(events=2), require_covers=["incoming rtp counted", "XR first in a compound packet", "report block for the stream after another block"])]
        + [dict(pkg="pkg/stats", entry="HC19RTT", params=dict(dbase=db, dbits=bits, srs=3), require_covers=["matching sender report", "no matching sender report"]) for (db, bits) in ((1, 10), (65536, 16), (65536000, 16), (4294900000, 16))]
-       + [dict(pkg="pkg/stats", entry="HC19RTT", params=dict(dbase=65536, dbits=12, srs=7), require_covers=["matching sender report"])],
-    bounds=dict(quick="one recorder (SSRC 100), 2 events chosen from {incoming RTP, outgoing RTP, incoming RTCP compound of 2 packets out of NACK/PLI/FIR/XR, outgoing RTCP NACK/PLI/FIR}, each addressed to the stream or to another SSRC (symbolic), sequence numbers base+-3 for any base incl. wrap, payload length 0..1460; counters compared with a recount. RTT from LSR/DLSR: 3 remembered outgoing sender reports (symbolic NTP fractions), an incoming receiver report matching the k-th of them or none, DLSR in 4 windows (2^10 values from 1, 2^16 values from 1 s, 1000 s and the top of the 32-bit range), arrival within 2^30 ns: RTT == arrival - DLSR - send time of the matching report, one measurement; nothing on a mismatch",
+       + [dict(pkg="pkg/stats", entry="HC19RTT", params=dict(dbase=65536, dbits=12, srs=7), require_covers=["matching sender report"])]
+       + [dict(pkg="pkg/stats", entry="HC19Interceptor", require_covers=["queried"])],
+    bounds=dict(quick="one recorder (SSRC 100), 2 events chosen from {incoming RTP, outgoing RTP, incoming RTCP compound of 2 packets out of NACK/PLI/FIR/XR, outgoing RTCP NACK/PLI/FIR}, each addressed to the stream or to another SSRC (symbolic), sequence numbers base+-3 for any base incl. wrap, payload length 0..1460; counters compared with a recount. RTT from LSR/DLSR: 3 remembered outgoing sender reports (symbolic NTP fractions), an incoming receiver report matching the k-th of them or none, DLSR in 4 windows (2^10 values from 1, 2^16 values from 1 s, 1000 s and the top of the 32-bit range), arrival within 2^30 ns: RTT == arrival - DLSR - send time of the matching report, one measurement; nothing on a mismatch. Interceptor level: one local and two remote streams behind one stats interceptor, RTP both ways with symbolic lengths (a foreign SSRC on the local writer, stale bytes beyond the read length), one outgoing and one marshalled incoming RTCP compound packet: every queried figure per SSRC equals the recount",
                 thorough="same (3 events did not finish within 50 minutes)"),
-    outside=["DLRR (XR) round-trip time, remote jitter and packets-received figures", "the interceptor fan-out and the Queue*/channel plumbing", "a stream whose first sequence number is below the reordering distance (unwrapper corner)", "FIR whose media SSRC field is 0 (RFC 5104 form)"],
+    outside=["DLRR (XR) round-trip time, remote jitter and packets-received figures", "packets that pass before a recorder has become active (it starts on its own goroutine)", "a stream whose first sequence number is below the reordering distance (unwrapper corner)", "FIR whose media SSRC field is 0 (RFC 5104 form)"],
     assumptions=["pion/logging no-op"],
 )
 
